@@ -31,7 +31,20 @@ def wide_batch_jobs(rng, n):
     acknowledgements and at every journal write, with the torn variant."""
     return [("wide%d" % i, ["--seed", str(rng.randrange(1 << 30)), "--steps", "30", "--fmt", str([3, 3, 2][i % 3]), "--blocks", "300",
                             "--cpus", "2", "--keys", "70", "--ttl", "1", "--end", "drop", "--flushpct", "5", "--maximages", "150",
-                            "--wide", "66", "--wideevery", "10", "--cc", "4"]) for i in range(n)]
+                            "--wide", "66", "--wideevery", "10", "--cc", "4"]) for i in range(n)] + \
+        [("wider%d" % i, ["--seed", str(rng.randrange(1 << 30)), "--steps", "14", "--fmt", str([3, 2][i % 2]), "--blocks", "700",
+                          "--cpus", "2", "--keys", "310", "--ttl", "1", "--end", "drop", "--flushpct", "5", "--maximages", "60",
+                          # more records in one batch than one io_uring submission holds (128) and than its queue (256);
+                          # a journal image of five 512-byte sectors
+                          "--wide", str([300, 140][i % 2]), "--wideevery", "6", "--cc", "4"]) for i in range(max(1, n // 2))]
+
+
+def huge_extent_jobs(rng, n, extra=()):
+    """Values of more than 1 MiB: extents longer than the 256 blocks in which retirement markers are written
+    (and recovery reads) at a time; crash images between the partial marker writes."""
+    return [("huge%d" % i, ["--seed", str(rng.randrange(1 << 30)), "--steps", "16", "--fmt", str([3, 2, 1][i % 3]), "--blocks", "1000",
+                            "--cpus", "2", "--keys", "2", "--ttl", "1", "--end", "drop", "--flushpct", "30", "--maximages", "120",
+                            "--huge", "60", "--cc", "4"] + list(extra)) for i in range(n)]
 
 
 def run_workloads(fxv, rd, jobs, par=8):
